@@ -215,7 +215,7 @@ func GenOp(t *rapid.T, r *Runner, pool *KeyPool, p *GenProfile) Op {
 		}
 		return op
 	case "fold":
-		op := Op{K: "fold", N: U(t, 4, "stop")}
+		op := Op{K: "fold", N: U(t, 4, "stop"), Mutate: Pct(t, 15, "foldmutates")}
 		if p.Weights["put"] > 0 && Pct(t, 40, "foldwrites") {
 			// writes issued from inside the callback: Fold walks a snapshot, later writes must not disturb it
 			n := 1 + U(t, 3, "nfoldw")
